@@ -23,7 +23,8 @@ ASSUMPTIONS = [
     "permutation of the same keys is adopted as the new recency order (content must still agree exactly)",
     "keys are hashable and compared by ==/hash like dict keys",
 ]
-NCASES = {"quick": 6000, "thorough": 150000}
+BASE_CASES = {"quick": 6000, "thorough": 150000}
+NCASES = {"quick": 7200, "thorough": 180000}
 NSHARDS = 16
 SHARD_TIMEOUT = {"quick": 300, "thorough": 3600}
 
@@ -345,6 +346,7 @@ def run_case(case, res):
     comp["companion-b"] = "y"
     c = LRUCache(cap)
     m = Model(cap)
+    quiet = bool(case.get("quiet"))
     for step, (op, ki, v, aux) in enumerate(case["ops"]):
         _HOP[0] = bool(case.get("thread_hops")) and step % 2 == 1       # every second operation by a thread of its own
         k = common.fresh(keys[ki % len(keys)])     # an equal key, not the identical object
@@ -555,9 +557,15 @@ def run_case(case, res):
             adopt = "any"
         res.evaluations += 1
         res.count("op_" + op)
-        observe(c, m, desc, res, adopt, touched)
+        if not quiet or adopt is not None:
+            observe(c, m, desc, res, adopt, touched)
+        else:
+            res.count("quiet_steps_not_followed_by_a_read")
         if len(m.order) >= 2:
             res.seen((cap, tuple(map(repr, m.order)), tuple(repr(m.val[k2]) for k2 in m.order)))
+    if quiet:
+        observe(c, m, f"the whole quiet history of {len(case['ops'])} operations", res)
+        res.count("quiet_histories")
     g = outcome(lambda: (sorted(comp), len(comp), comp["companion-a"], comp["companion-b"]))
     if g != ("ok", (["companion-a", "companion-b"], 2, "x", "y")):
         raise Violation("other-instance-disturbed", f"a second cache that holds companion-a/companion-b and was not touched during the "
@@ -579,3 +587,22 @@ def replay(doc):
 
 
 RULE += ' Also (wave 9): shallow copies of the cache with one of the two handles dropped and collected; every fourth shard with DEBUG logging.'
+
+
+# ---- quiet histories (wave 12) ------------------------------------------------------------------------------------------
+# Case indices above BASE_CASES repeat the ordinary generator (with its own random draws) but are observed only at the end of
+# the history: the per-step observation reads the object through its public API, and a read can repair or overwrite state
+# that one operation left behind for the next (a deferred update, a remembered position) before the next operation meets it.
+_gen_case_ordinary = gen_case
+
+
+def gen_case(rng, tier, index):
+    if index >= BASE_CASES[tier]:
+        c = _gen_case_ordinary(rng, tier, index - BASE_CASES[tier] + 1)
+        c["quiet"] = True
+        return c
+    return _gen_case_ordinary(rng, tier, index)
+
+
+RULE += (' Also (wave 12): quiet histories (case indices above BASE_CASES) whose steps are not followed by a read through the '
+         'public API; the full comparison comes once, at the end of the history.')
